@@ -72,7 +72,7 @@ CLAIMED["C16"] = dict(engine="sortblocks", design="4 C16",
         "correspondence over a 12-block universe x all 326 type orders x both comment modes and an independent Python oracle (incl. input "
         "library unchanged).",
    note="list.sort assumed to meet the stable-sort contract (unique result proved); deepcopy assumed structure-preserving; 'input library "
-        "unchanged' is checked by the harness oracle only (heap-level statement belongs to C07); model hand-written, tied by correspondence; "
+        "unchanged' is proved at heap level over the framework model of C07 (C16_input_kept) and checked by the harness oracle; model hand-written, tied by correspondence; "
         "extraction cross-checked by vm_compute",
    technique="Coq proof (induction over lists/derivations) + differential correspondence via extracted model + independent oracle")
 
@@ -84,7 +84,7 @@ CLAIMED["C06"] = dict(engine="writer", design="4 C06",
         "comment with {n} = len(raw.splitlines()) then the raw text verbatim; str.splitlines proved against a declarative line grammar. "
         "Tied to /repo by differential correspondence through writer.write / write_string and by an independent Python oracle "
         "that also checks the format object is unchanged.",
-   note="the 'format object unchanged' clause is heap-level (C07) and checked here only by the harness oracle; str.splitlines and str.format "
+   note="the 'format object unchanged' clause is proved at heap level over the framework model of C07 (C06_format_unchanged, with the executable deep copy, no hypothesis on the copy) and checked by the harness oracle; str.splitlines and str.format "
         "({n}, {{ }} templates only) are CPython oracles modelled and compared on every run (ops 62/63); templates outside that class are "
         "skipped; VAL_SEP and the default format are regenerated from the running module (val_sep = ' = ' is a Qed)",
    technique="Coq proof + differential correspondence via extracted model + independent Python oracle")
